@@ -42,6 +42,7 @@ def run_property(prop: str, tier: str, seed: int, quiet: bool = False) -> tuple[
             # a helper called from VM code that the analyser cannot look into: its effects are unknown
             for x in notes['opaque'][:5]:
                 rep.error(f'helper not analysable: {x}')
+        world.__dict__.setdefault('_dep_cache', {})[f'rules_{prop.lower()}'] = 'running'
         mod.run(world, rep)
         if tier == 'thorough' and hasattr(mod, 'run_thorough'):
             mod.run_thorough(world, rep)
